@@ -305,6 +305,8 @@ def gen_node(rng, depth=2, route="potable", reg0=False, positive=False, smooth=F
       return {"k": "sum", "a": [gen_node(rng, depth - 1, route, reg0, True, smooth) for _ in range(2)]}
     if depth > 0 and c < 0.4:
       return {"k": "product", "a": [gen_node(rng, depth - 1, route, reg0, True, smooth) for _ in range(2)]}
+    if depth > 0 and c < 0.5:
+      return {"k": "pow", "a": [gen_node(rng, depth - 1, route, reg0, True, smooth), {"k": "form", "name": "constant", "p": [rfloat(rng, -1.0, 1.5)]}]}
     return gen_form(rng, positive=True, strict0=(reg0 and route == "api"))
   weights = {"form": 5.0}
   if depth > 0:
@@ -336,8 +338,13 @@ def gen_node(rng, depth=2, route="potable", reg0=False, positive=False, smooth=F
   if k in ("sum", "product"):
     return {"k": k, "a": [sub() for _ in range(rng.choice([2, 2, 3, 4]))]}
   if k == "pow":
+    cst = lambda lo, hi: {"k": "form", "name": "constant", "p": [rfloat(rng, lo, hi)]}
     expo = rng.choice([{"k": "form", "name": "constant", "p": [rng.choice([2.0, 0.5, -1.0, 3.0, rfloat(rng, -2.0, 2.5)])]},
-                       {"k": "form", "name": "polynomial", "p": [rfloat(rng, -1, 1), rfloat(rng, -0.05, 0.05)]}])
+                       {"k": "form", "name": "polynomial", "p": [rfloat(rng, -1, 1), rfloat(rng, -0.05, 0.05)]},
+                       # the exponent may itself be any definition: nested pow / sum / product (kept small)
+                       {"k": "pow", "a": [rng.choice([cst(0.5, 3.0), {"k": "form", "name": "polynomial", "p": [rfloat(rng, 0.5, 2.0), rfloat(rng, 0.0, 0.04)]}]), cst(-1.0, 1.5)]},
+                       {"k": "sum", "a": [cst(-1.0, 1.0), cst(-0.5, 1.0)]},
+                       {"k": "product", "a": [cst(-1.5, 1.5), {"k": "form", "name": "polynomial", "p": [rfloat(rng, 0.2, 1.0), rfloat(rng, -0.01, 0.01)]}]}])
     return {"k": "pow", "a": [gen_node(rng, max(0, depth - 1), route, reg0, True, smooth), expo]}
   if k == "trans":
     x = rfloat(rng, 0.1, 2.0)  # positive shift keeps r+X inside the domain
@@ -385,6 +392,13 @@ def gen_spline(rng, route="potable", reg0=False, forms=None, tables=None, kind=N
     start["p"][1] = abs(start["p"][1]) + 0.1
   if end["name"] in ("buck", "bornmayer"):
     end["p"][1] = abs(end["p"][1]) + 0.1
+  # the end potentials may be modifiers as well as plain forms (any definition without its own ranges)
+  if rng.random() < 0.3:
+    extra = {"k": "form", "name": "morse", "p": gen_form_params(rng, "morse")}
+    start = {"k": rng.choice(["sum", "product"]), "a": [start, extra] if rng.random() < 0.5 else [extra, start]}
+  if rng.random() < 0.3:
+    extra = {"k": "form", "name": rng.choice(["polynomial", "constant"]), "p": [rfloat(rng, 0.5, 2.0)]}
+    end = {"k": rng.choice(["sum", "product"]), "a": [end, extra]}
   if route == "api":
     s0 = ["-inf"]
   else:
